@@ -13,7 +13,7 @@ def run(acmed, env_fn, fam, seed, lo, hi, props="C07"):
         except Exception:
             continue
         if "index" in j:
-            out[j["index"]] = (j["trace_hash"], j["events"], j["virtual_s"], json.dumps(j["violations"], sort_keys=True))
+            out[j["index"]] = (j["trace_hash"], j["events"], j["virtual_s"], json.dumps(sorted(set("|".join([v["property"], v["kind"], v.get("cause", ""), v.get("phase", "")]) for v in j["violations"]))))
     return r.returncode, out
 
 
